@@ -4,6 +4,8 @@
 // file= ffile= message= output=), then judges the file with an INDEPENDENT well-formedness checker written here
 // (tags balanced and nested, attribute values quoted and unique, no raw & or < in attribute values or text, every & starts
 // one of the five entities or a numeric reference, one root element) and checks the faithfulness clauses of the statement
+// An earlier warm-up group (warmup=0 switches it off) runs on the same output object first, so that the judged group also depends
+// on the reset at a group end.
 // (tests=, failures=, one testcase per test in run order with name/file/line, skipped / failure markers, unescaped failure
 // message and captured output, file name).  Exit 1 (REPRODUCED) iff the judge rejects.
 #include <string>
@@ -136,6 +138,7 @@ int main(int argc, char **argv)
     bool fail[3] = { r_u64("fail0", 0) != 0, r_u64("fail1", 1) != 0, r_u64("fail2", 0) != 0 };
     bool ign[3] = { r_u64("ign0", 0) != 0, r_u64("ign1", 0) != 0, r_u64("ign2", 1) != 0 };
     bool pkg_empty = r_u64("pkg_empty", 0) != 0;
+    bool warmup = r_u64("warmup", 1) != 0;
     std::string group = r_str("group", "gr&o|u*p<1>\"q'/x\\y?z%w:v\r\nu"), package = r_str("package", "pk&g<\">'"), test = r_str("test", "te&st<\"'>\n"),
                 file = r_str("file", "dir/fi&le<\"'>.cpp"), ffile = r_str("ffile", "ot&her<\"'>.cpp"),
                 message = r_str("message", "expected <1 & 2>\r\n  but was \"3\" 'x' &amp; ]]>\n"), output = r_str("output", "printed & <b>\"text\"</b> 'q'\r\nline2\n");
@@ -149,6 +152,13 @@ int main(int argc, char **argv)
         if (!pkg_empty) out.setPackageName(package.c_str());
         TestResult result(out);
         result.testsStarted();
+        if (warmup) {           // an earlier group on the same output object: the judged group's counts and list depend on the reset at its end
+            UtestShell w0("warmup", "w0", "w.cpp", 1), w1("warmup", "w1", "w.cpp", 2);
+            result.currentGroupStarted(&w0);
+            result.currentTestStarted(&w0); result.countCheck(); result.currentTestEnded(&w0);
+            result.currentTestStarted(&w1); { TestFailure f(&w1, "w.cpp", 3, "warm-up failure"); result.addFailure(f); } result.currentTestEnded(&w1);
+            result.currentGroupEnded(&w1);
+        }
         UtestShell *tests[3] = { 0, 0, 0 }; UtestShell dummy(group.c_str(), "none", "none.cpp", 1);
         for (size_t k = 0; k < n; k++) {
             names[k] = test + num(k); tfiles[k] = file + num(k); lines[k] = 100 + k;
@@ -168,7 +178,12 @@ int main(int argc, char **argv)
         for (size_t k = 0; k < n; k++) delete tests[k];
     }
 
-    if (files.size() != 1) REPRODUCED("%zu files were opened for one group", files.size());
+    if (files.size() != (warmup ? 2u : 1u)) REPRODUCED("%zu files were opened for %d group(s)", files.size(), warmup ? 2 : 1);
+    if (warmup) {
+        Element w; if (!document(files[0].content, w)) REPRODUCED("warm-up group's file not well-formed: %s", why.c_str());
+        if (files[0].name != "cpputest_" + (pkg_empty ? std::string("") : sanitized(package) + "_") + "warmup.xml") REPRODUCED("warm-up group's file name is %s", show(files[0].name).c_str());
+        files.erase(files.begin());
+    }
     if (files[0].open) REPRODUCED("the group's file was not closed");
     if (stray_writes) REPRODUCED("%d writes went to a file that is not open", stray_writes);
     const std::string &doc = files[0].content;
